@@ -31,8 +31,7 @@ def WriteCorrect : Prop :=
     ∃ toks, nativeWrite tblNsEnv cfg m es = .ok toks ∧ infoset toks = some t
 
 /-- the structural region in which the state machine behaves like a recursive
-writer: no exception, no second text chunk in a row (it would be written after
-the end tag), no QName prefix generated after the declarations were written -/
+writer: no exception, no QName prefix generated after the declarations were written -/
 def treeWriterDefined (env : NsEnv) (cfg : Cfg) (m : List (Pfx × Str)) (q : Str)
     (attrs : List (Str × Val)) (kids : Content) : Bool :=
   (docCalls env cfg m q attrs kids).isSome
@@ -54,12 +53,15 @@ theorem ok_nsk_user_prefix :
       = some (.elem (some urnB, ['R']) [((some urnA, ['x']), ['1'])] []) := by
   rfl
 
-/-- witness 2 (c03-default-ns-attribute): attribute in the user's default namespace is
-written without prefix, so it is read in no namespace -/
-theorem cx_default_ns_attribute :
+/-- repaired (PENDING-04, was finding c03-default-ns-attribute): an attribute in the user's
+default namespace gets a generated prefix and is read back in that namespace — also on an
+unqualified child, where the writer used to raise `KeyError` -/
+theorem ok_default_ns_attribute :
     (nativeWrite tblNsEnv {} [(some [], urnA)]
-      [.start (inA ['R']), .attr (inA ['x']) (str ['1']), .end_ (inA ['R'])]).toOption.bind infoset
-      = some (.elem (some urnA, ['R']) [((none, ['x']), ['1'])] []) := by
+      [.start (inA ['R']), .attr (inA ['x']) (str ['1']),
+       .start ['c'], .attr (inA ['y']) (str ['2']), .end_ ['c'], .end_ (inA ['R'])]).toOption.bind infoset
+      = some (.elem (some urnA, ['R']) [((some urnA, ['x']), ['1'])]
+          [.elem (none, ['c']) [((some urnA, ['y']), ['2'])] []]) := by
   rfl
 
 /-- witness 3 (c03-reserved-prefix): user prefix `xml` bound to another namespace is passed through -/
@@ -68,23 +70,33 @@ theorem cx_reserved_prefix :
       [.start (inA ['R']), .end_ (inA ['R'])]).toOption.map nsWellFormed) = some false := by
   rfl
 
-/-- witness 4 (c03-consecutive-text): the second text chunk is written after the end tag -/
-theorem cx_consecutive_text :
-    nativeWrite tblNsEnv {} [] [.start ['M'], .data (str ['a']), .data (str ['b']), .end_ ['M']]
-      = .ok [.open_ ['M'] [] [], .text ['a'], .close ['M'], .text ['b']] := by
-  rfl
+/-- repaired (PENDING-03, was finding c03-consecutive-text): consecutive text chunks are written
+in order inside the element (the second used to be written after the end tag) -/
+theorem ok_consecutive_text :
+    nativeWrite tblNsEnv {} [] [.start ['M'], .data (str ['a']), .data (str ['b']), .data (str ['c']), .end_ ['M']]
+      = .ok [.open_ ['M'] [] [], .text ['a'], .text ['b'], .text ['c'], .close ['M']]
+    ∧ infoset [.open_ ['M'] [] [], .text ['a'], .text ['b'], .text ['c'], .close ['M']]
+      = some (.elem (none, ['M']) [] [.text ['a', 'b', 'c']]) := by
+  exact ⟨rfl, rfl⟩
 
-/-- witness 5 (c03-cr-in-text): a carriage return in character data is read back as a line feed -/
-theorem cx_cr_in_text :
-    (nativeWrite tblNsEnv {} [] [.start ['M'], .data (str ['a', '\r', 'b']), .end_ ['M']]).toOption.bind infoset
-      = some (.elem (none, ['M']) [] [.text ['a', '\n', 'b']]) := by
-  rfl
+/-- repaired (PENDING-01, was finding c03-cr-in-text): a carriage return in character data is
+written as `&#13;` and read back unchanged -/
+theorem ok_cr_in_text :
+    (nativeWrite tblNsEnv {} [] [.start ['M'], .data (str ['a', '\r', 'b']), .end_ ['M']]).toOption.map render
+      = some ['<', 'M', '>', 'a', '&', '#', '1', '3', ';', 'b', '<', '/', 'M', '>']
+    ∧ (nativeWrite tblNsEnv {} [] [.start ['M'], .data (str ['a', '\r', 'b']), .end_ ['M']]).toOption.bind infoset
+      = some (.elem (none, ['M']) [] [.text ['a', '\r', 'b']]) := by
+  exact ⟨rfl, rfl⟩
 
-/-- witness 6 (c03-uri-markup): `&` in a namespace name goes unescaped into the declaration -/
-theorem cx_uri_markup :
-    ((nativeWrite tblNsEnv {} [] [.start ('{' :: 'u' :: ':' :: 'a' :: '&' :: 'b' :: '}' :: ['R']),
-        .end_ ('{' :: 'u' :: ':' :: 'a' :: '&' :: 'b' :: '}' :: ['R'])]).toOption.map nsWellFormed) = some false := by
-  rfl
+/-- repaired (PENDING-02, was finding c03-uri-markup): `&` in a namespace name is escaped in the declaration -/
+theorem ok_uri_markup :
+    (nativeWrite tblNsEnv {} [] [.start ('{' :: 'u' :: ':' :: 'a' :: '&' :: 'b' :: '}' :: ['R']),
+        .end_ ('{' :: 'u' :: ':' :: 'a' :: '&' :: 'b' :: '}' :: ['R'])]).toOption.map render
+      = some ("<ns0:R xmlns:ns0=\"u:a&amp;b\"/>".toList)
+    ∧ ((nativeWrite tblNsEnv {} [] [.start ('{' :: 'u' :: ':' :: 'a' :: '&' :: 'b' :: '}' :: ['R']),
+        .end_ ('{' :: 'u' :: ':' :: 'a' :: '&' :: 'b' :: '}' :: ['R'])]).toOption.bind infoset)
+      = some (.elem (some ['u', ':', 'a', '&', 'b'], ['R']) [] []) := by
+  exact ⟨by decide +kernel, rfl⟩
 
 /-- witness 7 (c03-qname-late-prefix): QName text after a child creates a prefix that is never
 declared; a later sibling in that namespace raises `KeyError` -/
@@ -127,10 +139,9 @@ theorem write_correct_fails : ¬ WriteCorrect := by
 (each entry a legal declaration: NCName prefix other than `xmlns`, `xml` only for the XML
 namespace, declarable URI — `ns<digits>` and standard prefixes are allowed) and every well-nested event sequence whose
 names and values are lexically sound (`contentOK`: NCName local names,
-declarable namespaces, no attribute in the user's default namespace, XML
-characters only, no carriage return in text) and structurally sound
-(`shapeOK`: no text chunk directly after another DATA event, no QName with a
-namespace in a DATA event that is not the first content event), the native writer raises no exception and its output is a
+declarable namespaces, XML
+characters only) and structurally sound (`shapeOK`: no QName with a namespace in a DATA
+event that is not the first content event), the native writer raises no exception and its output is a
 namespace-well-formed document: every prefix used on an element or attribute is
 declared in scope and bound to the namespace the handler asked for, attribute
 names are distinct after expansion, the `xml`/`xmlns` rules hold. -/
@@ -138,7 +149,7 @@ theorem write_wellformed_partial (cfg : Cfg) (hcfg : plainCfg cfg = true)
     (m : List (Pfx × Str)) (hm : userMapOK tblNsEnv m = true)
     (q : Str) (attrs : List (Str × Val)) (kids : Content)
     (hok : contentOK tblNsEnv (userDefault m) (.child q attrs kids .nil) = true)
-    (hshape : shapeOK true false kids = true) :
+    (hshape : shapeOK true kids = true) :
     ∃ toks, nativeWrite tblNsEnv cfg m (document q attrs kids) = .ok toks ∧ nsWellFormed toks = true := by
   obtain ⟨cs, hcs⟩ := Proofs.Shape.docCalls_defined tblNsEnv (Proofs.MapInv.envOK_sound _ tables_ok) cfg hcfg m hm q attrs kids hok hshape
   obtain ⟨toks, node, h1, h2, _⟩ := document_main tblNsEnv tables_ok cfg hcfg m hm q attrs kids hok cs hcs
@@ -152,7 +163,7 @@ theorem write_denotes_sax_tree_partial (cfg : Cfg) (hcfg : plainCfg cfg = true)
     (m : List (Pfx × Str)) (hm : userMapOK tblNsEnv m = true)
     (q : Str) (attrs : List (Str × Val)) (kids : Content)
     (hok : contentOK tblNsEnv (userDefault m) (.child q attrs kids .nil) = true)
-    (hshape : shapeOK true false kids = true) :
+    (hshape : shapeOK true kids = true) :
     ∃ toks calls t, nativeWrite tblNsEnv cfg m (document q attrs kids) = .ok toks
       ∧ handlerRun tblNsEnv cfg true m (document q attrs kids) = (calls, none)
       ∧ infoset toks = some t ∧ saxTree calls = some t := by
@@ -173,7 +184,7 @@ theorem write_infoset_partial (cfg : Cfg) (hcfg : plainCfg cfg = true)
     (q : Str) (attrs : List (Str × Val)) (kids : Content)
     (hok : contentOK tblNsEnv (userDefault m) (.child q attrs kids .nil) = true)
     (hplain : plainContent (.child q attrs kids .nil) = true)
-    (hshape : shapeOK true false kids = true) :
+    (hshape : shapeOK true kids = true) :
     ∃ toks t, nativeWrite tblNsEnv cfg m (document q attrs kids) = .ok toks
       ∧ infoset toks = some t ∧ eventsTree tblNsEnv cfg (document q attrs kids) = some t := by
   obtain ⟨cs, hcs⟩ := Proofs.Shape.docCalls_defined tblNsEnv (Proofs.MapInv.envOK_sound _ tables_ok) cfg hcfg m hm q attrs kids hok hshape
@@ -185,18 +196,19 @@ theorem write_infoset_partial (cfg : Cfg) (hcfg : plainCfg cfg = true)
 
 /-- the hypotheses are satisfiable by a non-trivial input: default namespace in the
 user map, an unused entry, an unqualified child (default namespace reset), a
-grandchild back in the default namespace, attributes in a third namespace,
-markup characters in values -/
+grandchild back in the default namespace, attributes in a third namespace and in the
+user's default namespace,
+markup characters and a carriage return in values, consecutive text chunks -/
 example :
     let m : List (Pfx × Str) := [(none, urnA), (some ['p'], urnB), (some ['z'], urnX)]
     let kids : Content :=
-      .child ['c'] [(inB ['k'], str ['<', '&', '"'])]
-        (.child (inA ['g']) [] (.data (str ['t', ' ', '>']) .nil) .nil)
-        (.data (str ['t', 'a', 'i', 'l']) .nil)
+      .child ['c'] [(inB ['k'], str ['<', '&', '"']), (inA ['d'], str ['x'])]
+        (.child (inA ['g']) [] (.data (str ['t', ' ', '>']) (.data (str ['\r', '\n']) .nil)) .nil)
+        (.data (str ['t', 'a', 'i', 'l']) (.data (str ['2']) .nil))
     plainCfg {} = true ∧ userMapOK tblNsEnv m = true
     ∧ contentOK tblNsEnv (userDefault m) (.child (inA ['R']) [(['i', 'd'], str ['1'])] kids .nil) = true
     ∧ plainContent (.child (inA ['R']) [(['i', 'd'], str ['1'])] kids .nil) = true
-    ∧ shapeOK true false kids = true := by
+    ∧ shapeOK true kids = true := by
   decide +kernel
 
 /-- … by user maps that used to be excluded: a prefix of the form `ns<k>` and a standard
@@ -215,16 +227,16 @@ example :
     let kids : Content := .data (.atom (.qname (inA ['v']))) .nil
     userMapOK tblNsEnv m = true
     ∧ contentOK tblNsEnv (userDefault m) (.child (inB ['R']) attrs kids .nil) = true
-    ∧ shapeOK true false kids = true := by
+    ∧ shapeOK true kids = true := by
   decide +kernel
 
 /-- **tree_writer_defined**: the input-level conditions put a document inside
-`treeWriterDefined` (no exception, no tail text, no late prefix) -/
+`treeWriterDefined` (no exception, no late prefix) -/
 theorem tree_writer_defined (cfg : Cfg) (hcfg : plainCfg cfg = true)
     (m : List (Pfx × Str)) (hm : userMapOK tblNsEnv m = true)
     (q : Str) (attrs : List (Str × Val)) (kids : Content)
     (hok : contentOK tblNsEnv (userDefault m) (.child q attrs kids .nil) = true)
-    (hshape : shapeOK true false kids = true) :
+    (hshape : shapeOK true kids = true) :
     treeWriterDefined tblNsEnv cfg m q attrs kids = true := by
   obtain ⟨cs, hcs⟩ := Proofs.Shape.docCalls_defined tblNsEnv (Proofs.MapInv.envOK_sound _ tables_ok) cfg hcfg m hm q attrs kids hok hshape
   simp [treeWriterDefined, hcs]
@@ -265,10 +277,10 @@ theorem generate_prefix_never_overwrites (u : Str) (M : NsMap) :
   Proofs.MapInv.generatePrefix_appends tblNsEnv u M
 
 /-- **generate_prefix keeps the invariant**: on a map satisfying `MapOK` (unique keys, every
-entry a legal declaration, default namespace not also prefixed) generating a prefix for a
-declarable namespace without prefix keeps `MapOK` — so it holds after any number of generations. -/
+entry a legal declaration) generating a prefix for a
+declarable namespace that is not bound to a prefix keeps `MapOK` — so it holds after any number of generations. -/
 theorem generate_prefix_keeps_invariant (d : Option Str) (u : Str) (M : NsMap)
-    (hM : Proofs.MapInv.MapOK tblNsEnv d M) (hu : uriOK u = true) (hne : prefixExists u M = false) :
+    (hM : Proofs.MapInv.MapOK tblNsEnv d M) (hu : uriOK u = true) (hne : prefixedExists u M = false) :
     Proofs.MapInv.MapOK tblNsEnv d (generatePrefix tblNsEnv u M).2 :=
   (Proofs.MapInv.generatePrefix_ok tblNsEnv (Proofs.MapInv.envOK_sound _ tables_ok) d u M hM hu hne).2.1
 
@@ -316,6 +328,21 @@ theorem escape_inverse (s : Str) :
   refine ⟨?_, Proofs.Escape.escape_no_lt s, Proofs.Escape.escape_no_gt s⟩
   rw [Proofs.Escape.escape_eq]
   exact Proofs.Escape.decodeRefs_esc s
+
+/-- **text_escape_inverse**: for every string, character data as the repaired native writer
+writes it (`escape(content, {"\\r": "&#13;"})`) contains no `<` and no raw carriage return, and
+decoding the references gives the string back — so text survives end-of-line normalisation. -/
+theorem text_escape_inverse (s : Str) :
+    decodeRefs (escapeText s) = some s ∧ '<' ∉ escapeText s ∧ '\r' ∉ escapeText s :=
+  Proofs.Escape.escapeText_spec s
+
+/-- **decl_escape_inverse**: for every namespace name, what the repaired native writer puts
+between the quotes of `xmlns…="…"` contains no `<`, no `"`, no raw tab / line feed / carriage
+return, and decoding the references gives the name back. -/
+theorem decl_escape_inverse (s : Str) :
+    decodeRefs (escapeDecl s) = some s ∧ '<' ∉ escapeDecl s ∧ '"' ∉ escapeDecl s
+      ∧ '\n' ∉ escapeDecl s ∧ '\r' ∉ escapeDecl s ∧ '\t' ∉ escapeDecl s :=
+  Proofs.Escape.escapeDecl_spec s
 
 /-- **quoteattr_inverse**: for every string, `quoteattr` yields `q body q` with `q` one of the two
 quote characters, `body` free of `q`, of `<` and of literal tab / line feed / carriage return (so
